@@ -4,7 +4,15 @@
 // they are skipped like at the production INFO level.
 package logging
 
-import "fmt"
+import (
+	"fmt"
+
+	"rcproxy/core/vsys"
+)
+
+// MaxLines bounds what a replay keeps: a proxy that logs inside an endless loop must end in the livelock verdict, not in
+// an out-of-memory kill of the checker.
+const MaxLines = 20000
 
 var logObj *logger = nil
 
@@ -20,8 +28,13 @@ func VerifResetLog() { Lines = Lines[:0]; NWarn, NError = 0, 0 }
 
 func add(l, f string, v ...interface{}) {
 	line := fmt.Sprintf(f, v...)
+	vsys.LoopTickN(500) // a log line without any system call in between counts like 500 loop iterations
 	if Capture {
-		Lines = append(Lines, l+" "+line)
+		if len(Lines) < MaxLines {
+			Lines = append(Lines, l+" "+line)
+		} else if len(Lines) == MaxLines {
+			Lines = append(Lines, "... further lines dropped")
+		}
 	}
 }
 func Debug(v ...interface{}) {
